@@ -15,7 +15,9 @@ ALL_MODULES = SO_MODS + ['contracts.so_wrapper', 'contracts.journal_units', 'con
 #   C04 (committed = majority-backed, final) <- election safety (C03), membership safety (C10)
 #   C06 (journaled restart forgets nothing)  <- the file journal is the list and is kill-safe (C08)
 #   C11 (arguments arrive intact, nothing raises while sending / receiving) <- framing (C13)
-DEPENDS = {'C01': ['C03', 'C04', 'C10'], 'C04': ['C03', 'C10'], 'C06': ['C08'], 'C11': ['C13']}
+#   C15 (batteries behave like the builtins, also on a replica restored from a snapshot or after a version switch) <- code versions (C17):
+#       battery methods are versioned (`ReplList.__setitem__` exists from version 1), so a wrong name table breaks them
+DEPENDS = {'C01': ['C03', 'C04', 'C10'], 'C04': ['C03', 'C10'], 'C06': ['C08'], 'C11': ['C13'], 'C15': ['C17']}
 
 
 A_RAFT = ('A-RAFT: the local rules proved here (R1-R11 of DESIGN §3.3) imply the cluster-wide statement by the published Raft '
